@@ -86,6 +86,36 @@ def check_decorators(fn: ast.FunctionDef, rel: str):
 
 
 def loop_guard():
+    """the guard of loop_refinement: by the pinned texts; when they do not match, from the tree of T12p (gen_kernels_refine.py),
+    which translates and type-checks the whole body — the sample-index local and `n_disp` are then whatever the source names them"""
+    try:
+        return loop_guard_pinned()
+    except Unsupported:
+        import copy
+        from . import gen_kernels_refine
+        rel, cls, meth = LOOP
+        px = gen_kernels_refine.kernels()["loopRefinementPx"]
+        if px.guard_test is None or px.index_local is None:
+            raise
+        test = copy.deepcopy(px.guard_test)
+        ren = {px.index_local: "dsp", px.n_disp: "n_disp"}
+        for n in ast.walk(test):
+            if isinstance(n, ast.Name) and n.id in ren:
+                n.id = ren[n.id]
+        for n in ast.walk(test):
+            if isinstance(n, ast.Name) and n.id not in {a[0] for a in GUARD_ATOMS} | {"disp", "row", "col"}:
+                raise Unsupported(f"{rel}: the guard of {meth} reads `{n.id}`, which has no declared meaning")
+        numpy_names, _ = module_aliases(parse(rel), rel)
+        k = pyexpr.translate_expression(test, "refineGuard", GUARD_ATOMS, numpy_names=numpy_names,
+                                        source_text=read_source(rel), py_name=f"{meth}: guard of the method call")
+        if k.ret_types != ["bool"] or k.partial:
+            raise Unsupported(f"{rel}: the guard of {meth} is not a total boolean expression")
+        k.origin = f"{rel}: {cls}.{meth}, test of the `if` whose body calls `method(...)` (read through T12p's tree)"
+        k.always_partial = False
+        return k
+
+
+def loop_guard_pinned():
     """the test of the one `if` of loop_refinement whose body calls `method(...)`"""
     rel, cls, meth = LOOP
     mod = parse(rel)
